@@ -246,3 +246,17 @@ Fixpoint srun (s : sstate) (ops : list mop) : list (mret * nat * al) :=
   | [] => []
   | o :: r => let '(s', rt) := sstep s o in (rt, length (cur_s s'), cur_s s') :: srun s' r
   end.
+
+(* ---------------------------------------------------------------------------------------------- *)
+(* XalanSet<V> (Include/XalanSet.hpp) is XalanMap<V, bool> with default parameters: insert(v) =
+   m_map.insert(v, true), erase / find / count / clear / size / begin / end and the copy constructor
+   forward to the map *)
+Inductive setop := TIns (k : nat) | TErase (k : nat) | TFind (k : nat) | TClear | TCopy | TSel (r : bool).
+Definition set_to_map (o : setop) : mop :=
+  match o with
+  | TIns k => MIns k 1 | TErase k => MErase k | TFind k => MFind k | TClear => MClear | TCopy => MCopy | TSel r => MSel r
+  end.
+Definition default_map : xmap :=
+  new_map map_default_lf_num map_default_lf_den map_default_min_buckets map_default_erase_threshold.
+Definition set_run (hash : nat -> nat) (ops : list setop) :=
+  mrun hash (mkms default_map default_map false 0) (map set_to_map ops).
